@@ -12,7 +12,7 @@ SPEC = {
         {"kind": "RND", "type": "(cfg * list (step * sobs) * bool)", "eval": "check_case", "per_shard": 32},
     ],
     "classes": {},
-    "n_quick": 1000, "n_thorough": 60000,
+    "n_quick": 1000, "n_thorough": 4000,
     "level": "proof",
     "what_violation": "a load completes with other values than the loader/cache gave for its keys, a batch repeats a key or exceeds the bound, a key is never dispatched, or a load never completes",
     "rule": ("stream EXH: EVERY schedule (order of the requests' critical sections, timer firings, loader answers, at most one "
